@@ -191,6 +191,18 @@ func compare(c *core.Ctx, what string, cfg poolCfg, seq, par outcome, tol float6
 	}
 }
 
+// sequentialPanics: a workload on which the library panics already without a
+// pool says nothing about schedules (and the same panic on a pool worker
+// would take the process down); it is counted and not run in parallel.
+func sequentialPanics(c *core.Ctx, seq outcome) bool {
+	if strings.HasPrefix(seq.err, "panic in ") {
+		c.Logf("sequential run: %s", seq.err)
+		c.Count("not-judged:library-panics-in-the-sequential-run-as-well")
+		return true
+	}
+	return false
+}
+
 func boundaryError(e string) bool {
 	return strings.Contains(e, "invalid") || strings.Contains(e, "positive definite") || strings.Contains(e, "singular")
 }
